@@ -42,17 +42,18 @@ def layerCmd (f : List String) : Option String :=
     let pairsStr := if pairs then "ok" else if f2Shape o L then "f2" else "fail"
     let fits := fitsB o its
     let inDomain := fits || o.maxPos.isNone
-    let c02 := allClose (1/2 + tau) pos m.xs && (xs.isEmpty || allClose tau xs m.xs)
-    let delta := displacement L / Gen.wallWeight
+    let delta := displacement L / refWallWeight
+    let xref := if its.isEmpty then [] else refSolveSorted o its
+    let c02 := allClose (1/2 + tau + delta) pos xref && (xs.isEmpty || allClose (tau + delta) xs xref)
     let c03 := if fits then insideB o (1/2 + delta + tau) L else c01
     -- the same predicates on the model's own output (must hold by the theorems)
     let mits := m.order.map (fun i => items.getD i { target := 0, width := 0, stub := false })
     let ML := mits.zip (m.pos.map (fun (p : Int) => (p : Rat)))
     let MX := mits.zip m.xs
-    let mdelta := displacement MX / Gen.wallWeight
-    let mOK := sepAdjB o (1 + eps) ML && sepAdjB o eps MX &&
-      (!(fitsB o mits) || insideB o (mdelta + eps * (mits.length + 2 : Nat)) MX)
-    some s!"layer order={okStr orderOK} pos={okStr posOK} xs={okStr xsOK} c01={okStr c01} c01x={okStr c01x} pairs={pairsStr} c02={if inDomain then okStr c02 else "na"} c03={okStr c03} fits={if fits then 1 else 0} model={okStr mOK} blocks={(m.xs.eraseDups).length}/{m.xs.length}"
+    let mdelta := displacement MX / refWallWeight
+    let mOK := sepAdjB o (1 + eps) ML && sepAdjB o eps MX
+    let mOK3 := !(fitsB o mits) || insideB o (mdelta + eps * (mits.length + 2 : Nat)) MX
+    some s!"layer order={okStr orderOK} pos={okStr posOK} xs={okStr xsOK} c01={okStr c01} c01x={okStr c01x} pairs={pairsStr} c02={if inDomain then okStr c02 else "na"} c03={okStr c03} fits={if fits then 1 else 0} model={okStr mOK} model3={okStr mOK3} blocks={(m.xs.eraseDups).length}/{m.xs.length}"
   | _ => none
 
 def parseAlg (s : String) : Option Alg :=
